@@ -65,3 +65,19 @@ impl core::ops::Mul<u32> for Duration {
     type Output = Duration;
     fn mul(self, rhs: u32) -> Duration { Duration { ns: self.ns * (rhs as u128) } }
 }
+impl PartialEqSpecImpl for Duration {
+    open spec fn obeys_eq_spec() -> bool { true }
+    open spec fn eq_spec(&self, other: &Duration) -> bool { self.ns == other.ns }
+}
+impl core::cmp::PartialEq for Duration { fn eq(&self, other: &Duration) -> bool { self.ns == other.ns } }
+impl PartialOrdSpecImpl for Duration {
+    open spec fn obeys_partial_cmp_spec() -> bool { true }
+    open spec fn partial_cmp_spec(&self, other: &Duration) -> Option<core::cmp::Ordering> {
+        if self.ns < other.ns { Some(core::cmp::Ordering::Less) } else if self.ns == other.ns { Some(core::cmp::Ordering::Equal) } else { Some(core::cmp::Ordering::Greater) }
+    }
+}
+impl core::cmp::PartialOrd for Duration {
+    fn partial_cmp(&self, other: &Duration) -> Option<core::cmp::Ordering> {
+        if self.ns < other.ns { Some(core::cmp::Ordering::Less) } else if self.ns == other.ns { Some(core::cmp::Ordering::Equal) } else { Some(core::cmp::Ordering::Greater) }
+    }
+}
